@@ -337,17 +337,7 @@ Definition check_211 (fs : list field) : verdict :=
       match j2t_walk D (wopts02 bits) t text with
       | TUnmod => VSkip
       | TOk b =>
-        if (ec =? 0) && bytes_eqb out b then
-          (* finding 212: a top-level JSON string for a descriptor that takes none is dropped: empty output, nil error
-             (proved for the walk: j2t_walk_string_mismatch_refuted); recognised exactly: the text is one string literal,
-             the type does not admit it, nothing was written *)
-          match b, json_parse_prefix text with
-          | [], Some (JStr x, r') =>
-            if negb (kind_ok (jopts_of (wopts02 bits)) t (JStr x)) && (match skip_ws r' with [] => true | _ => false end)
-               && (match skip_ws text with c :: _ => c =? 34 | [] => false end) && negb (is_str_ty t)
-            then VKnown 212 else VOk
-          | _, _ => VOk
-          end
+        if (ec =? 0) && bytes_eqb out b then VOk
         else VBad 1 [FB b; FZ ec]
       | TErr c => if ec =? 0 then VBad 2 [FZ c] else if ec =? c then VOk else VBad 3 [FZ c; FZ ec]
       end
